@@ -67,6 +67,9 @@ def run_partition(pid, tier, part):
     return res
 
 
+_TIER = ['quick']
+
+
 def replay(pid, part_name, cex, tag):
     """Re-execute a counterexample natively (no shims, no tracing).
 
@@ -74,8 +77,8 @@ def replay(pid, part_name, cex, tag):
     os.makedirs(OUT, exist_ok=True)
     path = os.path.join(OUT, f'{pid}-{tag}.json')
     with open(path, 'w') as f:
-        json.dump({'property': pid, 'partition': part_name, 'cex': cex}, f,
-                  indent=1)
+        json.dump({'property': pid, 'partition': part_name, 'cex': cex,
+                   'tier': _TIER[0]}, f, indent=1)
     r = replay_file(path)
     return r[0], r[1], path
 
@@ -149,6 +152,7 @@ def main(argv):
     if '--only' in argv:
         only = argv[argv.index('--only') + 1]
     seed = int(os.environ.get('VERIF_SEED', '0') or 0)
+    _TIER[0] = tier
     sys.path.insert(0, VERIF)
     os.environ.setdefault('VERIF_REPO', REPO)
     t0 = time.time()
@@ -202,8 +206,10 @@ def main(argv):
     # known findings: replay each listed witness on the current tree
     known_out = []
     for k in known:
+        _TIER[0] = k['witness'].get('tier', tier)   # bounds the witness needs
         ok, text, path = replay(pid, k['witness']['partition'],
                                 k['witness']['cex'], f'known-{k["id"]}')
+        _TIER[0] = tier
         known_out.append({'id': k['id'], 'still_fails': ok, 'text': text})
         if ok:
             print(f'KNOWN-FINDING: property={pid} {k["id"]}: {k["what"]}')
